@@ -514,41 +514,42 @@ theorem inv_removeSubdomain {U : Universe} {s s' : State} {g : Nat} (hi : Inv U 
   · exact hi.bgNodup.sublist (filter_sublist.map _)
 
 
-/-- the state an accepted `sd_old ↦ sd_new` item produces -/
-def replaceState (U : Universe) (s : State) (old new : Nat) : State :=
-  let sds' := (if s.sds.contains new then s.sds else s.sds ++ [new]).filter (· != old)
-  let pairs' := s.pairs.map (replaceEntry U old new)
-  if s.bgs.any (fun b => b.1 == old) then
-    { sds := sds', pairs := pairs',
-      bgs := (s.bgs ++ [(new, s.nextBg)]).filter (fun b => b.1 != old), nextBg := s.nextBg + 1 }
-  else { s with sds := sds', pairs := pairs' }
-
 theorem replace1_ok {U : Universe} {s s' : State} {old new : Nat} {c : List Call}
-    (h : replace1 U s old new = .ok (s', c)) : old ∈ s.sds ∧ s' = replaceState U s old new := by
+    (h : replace1 U s old new = .ok (s', c)) :
+    old ∈ s.sds ∧ s' = replaceState U s old new ∧ c = plannedCalls U s old new ∧
+      (plannedCalls U s old new).any (callFails U) = false := by
   unfold replace1 at h
   split at h
   · cases h
   · rename_i h1
-    refine ⟨by simpa using h1, ?_⟩
-    unfold replaceState
-    simp only [] at h ⊢
     split at h
+    · cases h
     · rename_i h2
-      rw [if_pos h2]
-      cases h; rfl
-    · rename_i h2
-      rw [if_neg h2]
-      cases h; rfl
+      cases h
+      exact ⟨by simpa using h1, rfl, rfl, by simpa using h2⟩
 
-theorem replace1_error {U : Universe} {s : State} {old new : Nat} {e : Err}
-    (h : replace1 U s old new = .error e) : old ∉ s.sds ∧ e = .keyError := by
+theorem replace1_error {U : Universe} {s : State} {old new : Nat} {e : Err} {c : List Call}
+    (h : replace1 U s old new = .error (e, c)) :
+    (old ∉ s.sds ∧ e = .keyError ∧ c = []) ∨
+    (old ∈ s.sds ∧ e = .notImplementedError ∧ (plannedCalls U s old new).any (callFails U) = true) := by
   unfold replace1 at h
   split at h
   · rename_i h1
     cases h
-    exact ⟨by simpa using h1, rfl⟩
-  · simp only [] at h
-    split at h <;> cases h
+    exact Or.inl ⟨by simpa using h1, rfl, rfl⟩
+  · rename_i h1
+    split at h
+    · rename_i h2
+      cases h
+      exact Or.inr ⟨by simpa using h1, rfl, h2⟩
+    · cases h
+
+theorem replace1_eq_ok {U : Universe} {s : State} {old new : Nat} (ho : old ∈ s.sds)
+    (hs : (plannedCalls U s old new).any (callFails U) = false) :
+    replace1 U s old new = .ok (replaceState U s old new, plannedCalls U s old new) := by
+  unfold replace1
+  have : s.sds.contains old = true := by simpa using ho
+  rw [this, hs]; rfl
 
 theorem replaceEntry_fst (U : Universe) (old new : Nat) (p : Entry) :
     (replaceEntry U old new p).1 = p.1 := by
@@ -701,7 +702,7 @@ theorem inv_replaceMany {U : Universe} (sm : List (Nat × Nat)) {s : State} (hi 
       obtain ⟨s', c⟩ := r
       simp only [hr] at hw ⊢
       simp only [Bool.and_eq_true, Bool.not_eq_true', beq_iff_eq] at hw
-      obtain ⟨ho, rfl⟩ := replace1_ok hr
+      obtain ⟨ho, rfl, _, _⟩ := replace1_ok hr
       exact ih (inv_replaceState hi ho (by simpa using hw.1.1) hw.1.2) hw.2
 
 theorem inv_step {U : Universe} {s : State} (op : Op) (hi : Inv U s) (hw : wfOp U s op = true) :
@@ -955,5 +956,703 @@ theorem removeState_intfs {U : Universe} {s : State} (hi : Inv U s) (g : Nat) :
   intro p hp
   obtain ⟨i, a, b⟩ := p
   simp only [Function.comp, touchesI, lookup_eq_some_of_mem hi.intfNodup hp, touches]
+
+
+/-- `argsort_grids` on a list that may contain an object several times: a sorted rearrangement -/
+theorem sortGrids_spec_le {α : Type} (U : Universe) (s : State) (dimOf idOf : α → Nat) (xs : List α)
+    (he : s.sds = [] → xs = []) (hd : ∀ x ∈ xs, dimOf x ≤ dimMax U s.sds) :
+    ∃ l, sortGrids U s dimOf idOf xs = .ok l ∧ l ~ xs ∧ l.Pairwise (keyLe dimOf idOf) := by
+  unfold sortGrids
+  cases hs : s.sds with
+  | nil =>
+    have := he hs
+    subst this
+    exact ⟨[], by simp, Perm.refl _, Pairwise.nil⟩
+  | cons g r =>
+    simp only []
+    rw [← hs]
+    refine ⟨_, rfl, ?_, argsortFrom_sorted dimOf idOf _ xs⟩
+    have := argsortFrom_perm dimOf idOf (dimMax U s.sds) xs
+    rwa [filter_eq_self.2 (by intro x hx; simpa using hd x hx)] at this
+
+theorem mem_filterMap_otherEnd {g h : Nat} {l : List Entry} :
+    h ∈ l.filterMap (otherEnd g) ↔
+      ∃ p ∈ l, (p.2.1 = g ∧ p.2.2 = h) ∨ (p.2.1 ≠ g ∧ p.2.2 = g ∧ p.2.1 = h) := by
+  simp only [mem_filterMap, otherEnd]
+  constructor
+  · rintro ⟨p, hp, hh⟩
+    refine ⟨p, hp, ?_⟩
+    by_cases h1 : p.2.1 = g
+    · simp [h1] at hh; exact Or.inl ⟨h1, hh⟩
+    · by_cases h2 : p.2.2 = g
+      · simp [h1, h2] at hh; exact Or.inr ⟨h1, h2, hh⟩
+      · simp [h1, h2] at hh
+  · rintro ⟨p, hp, hh⟩
+    refine ⟨p, hp, ?_⟩
+    rcases hh with ⟨h1, h2⟩ | ⟨h1, h2, h3⟩
+    · simp [h1, h2]
+    · have e1 : (p.2.1 == g) = false := by simpa using h1
+      have e2 : (p.2.2 == g) = true := by simpa using h2
+      rw [e1, e2]; simp [h3]
+
+
+/-! ### the data layer -/
+
+/-- all dictionary tokens of a container -/
+def allToks (d : DState) : List Nat :=
+  d.sdData.map (·.2) ++ d.ifData.map (·.2) ++ d.bgData.map (·.2)
+
+/-- consistency of a container including its data dictionaries: every subdomain / interface /
+    boundary grid has exactly one dictionary (same keys, same order), and no dictionary is
+    stored under two keys. -/
+structure DInv (U : Universe) (d : DState) : Prop where
+  core : Inv U d.core
+  sdKeys : d.sdData.map (·.1) = d.core.sds
+  ifKeys : d.ifData.map (·.1) = d.core.intfs
+  bgKeys : d.bgData.map (·.1) = d.core.bgs.map (·.2)
+  tokNodup : (allToks d).Nodup
+  tokFresh : ∀ t ∈ allToks d, t < d.nextTok
+
+theorem dinv_empty (U : Universe) : DInv U DState.empty := by
+  refine ⟨inv_empty U, rfl, rfl, rfl, ?_, ?_⟩ <;> simp [allToks, DState.empty]
+
+theorem freshFor_fst (ks : List Nat) (t : Nat) : (freshFor ks t).map (·.1) = ks := by
+  induction ks generalizing t with
+  | nil => rfl
+  | cons k ks ih => simp [freshFor, ih]
+
+theorem freshFor_snd (ks : List Nat) (t : Nat) :
+    (freshFor ks t).map (·.2) = List.range' t ks.length := by
+  induction ks generalizing t with
+  | nil => rfl
+  | cons k ks ih => simp [freshFor, ih, List.range'_succ]
+
+theorem foldl_addOne_bgs (U : Universe) (gs : List Nat) (s : State) :
+    ∃ extra, (gs.foldl (addOne U) s).bgs = s.bgs ++ extra := by
+  induction gs generalizing s with
+  | nil => exact ⟨[], by simp⟩
+  | cons g gs ih =>
+    obtain ⟨e, he⟩ := ih (addOne U s g)
+    simp only [foldl_cons]
+    unfold addOne at he ⊢
+    split at he
+    · exact ⟨(g, s.nextBg) :: e, by simp [*]⟩
+    · exact ⟨e, by simp [*]⟩
+
+theorem nodup_fresh3 {A B C : List Nat} {t n m : Nat} (hn : (A ++ B ++ C).Nodup)
+    (hf : ∀ x ∈ A ++ B ++ C, x < t) :
+    ((A ++ List.range' t n) ++ B ++ (C ++ List.range' (t + n) m)).Nodup ∧
+    ∀ x ∈ (A ++ List.range' t n) ++ B ++ (C ++ List.range' (t + n) m), x < t + n + m := by
+  have hperm : (A ++ List.range' t n) ++ B ++ (C ++ List.range' (t + n) m)
+      ~ (A ++ B ++ C) ++ List.range' t (n + m) := by
+    rw [← List.range'_append_1, perm_iff_count]
+    intro a
+    simp only [count_append]
+    omega
+  refine ⟨(hperm.nodup_iff).2 ?_, ?_⟩
+  · rw [nodup_append]
+    refine ⟨hn, List.nodup_range', ?_⟩
+    intro a ha b hb
+    have := hf a ha
+    rw [List.mem_range'_1] at hb
+    omega
+  · intro x hx
+    rcases mem_append.1 (hperm.mem_iff.1 hx) with hx | hx
+    · have := hf x hx; omega
+    · rw [List.mem_range'_1] at hx; omega
+
+theorem nodup_fresh1 {A B C : List Nat} {t : Nat} (hn : (A ++ B ++ C).Nodup)
+    (hf : ∀ x ∈ A ++ B ++ C, x < t) :
+    (A ++ (B ++ [t]) ++ C).Nodup ∧ ∀ x ∈ A ++ (B ++ [t]) ++ C, x < t + 1 := by
+  have hperm : A ++ (B ++ [t]) ++ C ~ t :: (A ++ B ++ C) := by
+    rw [perm_iff_count]
+    intro a
+    simp only [count_append, count_cons, count_nil]
+    omega
+  refine ⟨(hperm.nodup_iff).2 (nodup_cons.2 ⟨fun h => Nat.lt_irrefl _ (hf t h), hn⟩), ?_⟩
+  intro x hx
+  rcases mem_cons.1 (hperm.mem_iff.1 hx) with rfl | hx
+  · exact Nat.lt_succ_self _
+  · exact Nat.lt_succ_of_lt (hf x hx)
+
+theorem dinv_addSubdomains {U : Universe} {d d' : DState} {gs : List Nat} (hi : DInv U d)
+    (h : dAddSubdomains U d gs = .ok d') : DInv U d' := by
+  unfold dAddSubdomains at h
+  cases ha : addSubdomains U d.core gs with
+  | error e => rw [ha] at h; cases h
+  | ok s' =>
+    rw [ha] at h
+    simp only [] at h
+    cases h
+    obtain ⟨_, _, hs'⟩ := addSubdomains_ok ha
+    obtain ⟨extra, hex⟩ := foldl_addOne_bgs U gs d.core
+    have hbgs : s'.bgs = d.core.bgs ++ extra := by rw [hs', hex]
+    have hdrop : s'.bgs.drop d.core.bgs.length = extra := by rw [hbgs]; exact drop_left
+    have htok := nodup_fresh3 (n := gs.length) (m := (extra.map (·.2)).length)
+      (by simpa [allToks] using hi.tokNodup) (by simpa [allToks] using hi.tokFresh)
+    refine ⟨inv_addSubdomains hi.core ha, ?_, ?_, ?_, ?_, ?_⟩
+    · simp only [map_append, freshFor_fst, hi.sdKeys]
+      rw [hs', foldl_addOne_sds]
+    · simp only [hi.ifKeys, State.intfs]
+      rw [hs', foldl_addOne_pairs]
+    · simp only [map_append, freshFor_fst, hi.bgKeys, hdrop]
+      rw [hbgs, map_append]
+    · simp only [allToks, map_append, freshFor_snd, hdrop]
+      exact htok.1
+    · simp only [allToks, map_append, freshFor_snd, hdrop]
+      exact htok.2
+
+theorem dinv_addInterface {U : Universe} {d d' : DState} {i a b : Nat} (hi : DInv U d)
+    (ha : a ∈ d.core.sds) (hb : b ∈ d.core.sds) (hda : U.ifDim i ≤ U.sdDim a)
+    (hdb : U.ifDim i ≤ U.sdDim b) (h : dAddInterface U d i [a, b] = .ok d') : DInv U d' := by
+  unfold dAddInterface at h
+  cases hadd : addInterface U d.core i [a, b] with
+  | error e => rw [hadd] at h; cases h
+  | ok s' =>
+    rw [hadd] at h
+    simp only [] at h
+    cases h
+    obtain ⟨a', b', x, y, _, _, _, hs'⟩ := addInterface_ok hadd
+    have htok := nodup_fresh1 (t := d.nextTok)
+      (by simpa [allToks] using hi.tokNodup) (by simpa [allToks] using hi.tokFresh)
+    refine ⟨inv_addInterface hi.core ha hb hda hdb hadd, ?_, ?_, ?_, ?_, ?_⟩
+    · simp only [hi.sdKeys]; rw [hs']
+    · simp only [map_append, map_cons, map_nil, hi.ifKeys]
+      rw [hs']; simp [State.intfs]
+    · simp only [hi.bgKeys]; rw [hs']
+    · simp only [allToks, map_append, map_cons, map_nil]
+      exact htok.1
+    · simp only [allToks, map_append, map_cons, map_nil]
+      exact htok.2
+
+/-- a duplicate-free list filtered by membership in one of its sublists is that sublist -/
+theorem filter_mem_of_sublist {K L : List Nat} (hs : K <+ L) (hn : L.Nodup) :
+    L.filter (fun x => K.contains x) = K := by
+  induction hs with
+  | slnil => rfl
+  | cons a hs ih =>
+    rename_i K' L'
+    rw [nodup_cons] at hn
+    have : K'.contains a = false := by
+      simp only [contains_eq_mem, decide_eq_false_iff_not]
+      exact fun h => hn.1 (hs.subset h)
+    simp only [filter_cons, this]
+    exact ih hn.2
+  | cons_cons a hs ih =>
+    rename_i K' L'
+    rw [nodup_cons] at hn
+    have h1 : (a :: K').contains a = true := by simp
+    simp only [filter_cons, h1, if_true]
+    congr 1
+    refine Eq.trans ?_ (ih hn.2)
+    apply filter_congr
+    intro x hx
+    have : x ≠ a := fun e => hn.1 (e ▸ hx)
+    simp [this]
+
+theorem filter_keys_sublist {l : List (Nat × Nat)} {K : List Nat} (hs : K <+ l.map (·.1))
+    (hn : (l.map (·.1)).Nodup) : (l.filter (fun e => K.contains e.1)).map (·.1) = K := by
+  have : (l.filter (fun e => K.contains e.1)).map (·.1) = (l.map (·.1)).filter (fun x => K.contains x) := by
+    rw [filter_map]; rfl
+  rw [this]
+  exact filter_mem_of_sublist hs hn
+
+theorem dinv_removeSubdomain {U : Universe} {d d' : DState} {g : Nat} (hi : DInv U d)
+    (h : dRemoveSubdomain d g = .ok d') : DInv U d' := by
+  unfold dRemoveSubdomain at h
+  cases hr : removeSubdomain d.core g with
+  | error e => rw [hr] at h; cases h
+  | ok s' =>
+    rw [hr] at h
+    simp only [] at h
+    cases h
+    obtain ⟨hg, hs'⟩ := removeSubdomain_ok hr
+    refine ⟨inv_removeSubdomain hi.core hr, ?_, ?_, ?_, ?_, ?_⟩
+    · simp only []
+      have : (d.sdData.filter (fun e => e.1 != g)).map (·.1) = (d.sdData.map (·.1)).filter (· != g) := by
+        rw [filter_map]; rfl
+      rw [this, hi.sdKeys, hs']
+    · simp only []
+      apply filter_keys_sublist
+      · rw [hi.ifKeys, hs']; exact filter_sublist.map _
+      · rw [hi.ifKeys]; exact hi.core.intfNodup
+    · simp only []
+      apply filter_keys_sublist
+      · rw [hi.bgKeys, hs']; exact filter_sublist.map _
+      · rw [hi.bgKeys]; exact hi.core.bgNodup
+    · exact hi.tokNodup.sublist
+        (((filter_sublist.map _).append (filter_sublist.map _)).append (filter_sublist.map _))
+    · intro t ht
+      refine hi.tokFresh t (Sublist.subset ?_ ht)
+      exact ((filter_sublist.map _).append (filter_sublist.map _)).append (filter_sublist.map _)
+
+
+/-! #### handing a dictionary over to a new key -/
+
+theorem moveKey_eq {old new t : Nat} {l : List (Nat × Nat)} (h : lookup old l = some t)
+    (hne : new ≠ old) : moveKey old new l = l.filter (fun e => e.1 != old) ++ [(new, t)] := by
+  unfold moveKey
+  rw [h]
+  simp [filter_append, hne]
+
+theorem filter_ne_snd_perm {old t : Nat} {l : List (Nat × Nat)} (hn : (l.map (·.1)).Nodup)
+    (h : lookup old l = some t) :
+    (l.filter (fun e => e.1 != old)).map (·.2) ++ [t] ~ l.map (·.2) := by
+  induction l with
+  | nil => simp [lookup] at h
+  | cons p l ih =>
+    simp only [map_cons, nodup_cons] at hn
+    simp only [lookup] at h
+    by_cases hp : p.1 = old
+    · have hpb : (p.1 == old) = true := by simpa using hp
+      rw [hpb] at h
+      simp only [if_true, Option.some.injEq] at h
+      have hfil : l.filter (fun e => e.1 != old) = l := by
+        rw [filter_eq_self]
+        intro e he
+        simp only [bne_iff_ne, ne_eq]
+        intro heq
+        exact hn.1 (hp ▸ heq ▸ mem_map.2 ⟨e, he, rfl⟩)
+      have hpn : (p.1 != old) = false := by simp [hp]
+      simp only [filter_cons, hpn, hfil, map_cons, ← h]
+      exact perm_append_singleton _ _
+    · have hpb : (p.1 == old) = false := by simpa using hp
+      rw [hpb] at h
+      have hpn : (p.1 != old) = true := by simp [hp]
+      simp only [filter_cons, hpn, if_true, map_cons, cons_append]
+      exact Perm.cons _ (ih hn.2 h)
+
+theorem moveKey_fst {old new t : Nat} {l : List (Nat × Nat)} (h : lookup old l = some t)
+    (hne : new ≠ old) :
+    (moveKey old new l).map (·.1) = (l.map (·.1) ++ [new]).filter (· != old) := by
+  rw [moveKey_eq h hne]
+  have : (l.filter (fun e => e.1 != old)).map (·.1) = (l.map (·.1)).filter (· != old) := by
+    rw [filter_map]; rfl
+  simp [filter_append, this, hne]
+
+theorem moveKey_snd_perm {old new t : Nat} {l : List (Nat × Nat)} (hn : (l.map (·.1)).Nodup)
+    (h : lookup old l = some t) (hne : new ≠ old) : (moveKey old new l).map (·.2) ~ l.map (·.2) := by
+  rw [moveKey_eq h hne]
+  simpa using filter_ne_snd_perm hn h
+
+theorem lookup_of_key_mem {β : Type} {k : Nat} {l : List (Nat × β)} (h : k ∈ l.map (·.1)) :
+    ∃ v, lookup k l = some v := by
+  cases hl : lookup k l with
+  | some v => exact ⟨v, rfl⟩
+  | none => exact absurd h (lookup_eq_none_iff.1 hl)
+
+theorem moveKey_lookup_new {old new t : Nat} {l : List (Nat × Nat)} (h : lookup old l = some t)
+    (hne : new ≠ old) (hnk : new ∉ l.map (·.1)) : lookup new (moveKey old new l) = some t := by
+  rw [moveKey_eq h hne, lookup_append]
+  have : lookup new (l.filter (fun e => e.1 != old)) = none := by
+    rw [lookup_filter_ne _ hne]; exact lookup_eq_none_iff.2 hnk
+  rw [this]; simp [lookup]
+
+theorem moveKey_lookup_other {old new t x : Nat} {l : List (Nat × Nat)} (h : lookup old l = some t)
+    (hne : new ≠ old) (hxo : x ≠ old) (hxn : x ≠ new) : lookup x (moveKey old new l) = lookup x l := by
+  rw [moveKey_eq h hne, lookup_append, lookup_filter_ne _ hxo]
+  have : lookup x [(new, t)] = none := by
+    simp [lookup]; exact fun e => hxn e.symm
+  rw [this]; simp
+
+theorem eq_of_nodup_map {α β : Type} {f : α → β} {l : List α} (h : (l.map f).Nodup) {a b : α}
+    (ha : a ∈ l) (hb : b ∈ l) (e : f a = f b) : a = b := by
+  induction l with
+  | nil => cases ha
+  | cons x l ih =>
+    simp only [map_cons, nodup_cons] at h
+    rcases mem_cons.1 ha with rfl | ha' <;> rcases mem_cons.1 hb with rfl | hb'
+    · rfl
+    · exact absurd (mem_map.2 ⟨b, hb', e.symm⟩) h.1
+    · exact absurd (mem_map.2 ⟨a, ha', e⟩) h.1
+    · exact ih h.2 ha' hb'
+
+/-- what `dReplace1` does when it succeeds -/
+theorem dReplace1_ok {U : Universe} {d d' : DState} {old new : Nat} {c : List Call}
+    (h : dReplace1 U d old new = .ok (d', c)) :
+    replace1 U d.core old new = .ok (d'.core, c) ∧
+    d'.sdData = moveKey old new d.sdData ∧ d'.ifData = d.ifData ∧
+    d'.bgData = (match lookup old d.core.bgs with
+      | some bOld => moveKey bOld d.core.nextBg d.bgData
+      | none => d.bgData) ∧ d'.nextTok = d.nextTok := by
+  unfold dReplace1 at h
+  cases hr : replace1 U d.core old new with
+  | error e => rw [hr] at h; cases h
+  | ok r =>
+    obtain ⟨s', c'⟩ := r
+    rw [hr] at h
+    simp only [] at h
+    cases h
+    exact ⟨rfl, rfl, rfl, rfl, rfl⟩
+
+theorem dinv_replace1 {U : Universe} {d d' : DState} {old new : Nat} {c : List Call}
+    (hi : DInv U d) (hn : new ∉ d.core.sds) (hd : U.sdDim new = U.sdDim old)
+    (h : dReplace1 U d old new = .ok (d', c)) : DInv U d' := by
+  obtain ⟨hr, hsd, hif, hbg, htk⟩ := dReplace1_ok h
+  obtain ⟨ho, hs', _, _⟩ := replace1_ok hr
+  have hne : new ≠ old := fun e => hn (e ▸ ho)
+  have hcore := inv_replaceState hi.core ho hn hd
+  obtain ⟨t, ht⟩ := lookup_of_key_mem (l := d.sdData) (k := old) (by rw [hi.sdKeys]; exact ho)
+  have hsdn : (d.sdData.map (·.1)).Nodup := by rw [hi.sdKeys]; exact hi.core.sdsNodup
+  have hbgn : (d.bgData.map (·.1)).Nodup := by rw [hi.bgKeys]; exact hi.core.bgNodup
+  have hkn : (d.core.bgs.map (·.1)).Nodup := by
+    rw [hi.core.bgKeys]; exact hi.core.sdsNodup.sublist filter_sublist
+  -- the boundary-grid part, in both cases
+  have hbgpart : d'.bgData.map (·.1) = d'.core.bgs.map (·.2) ∧ d'.bgData.map (·.2) ~ d.bgData.map (·.2) := by
+    rw [hbg, hs']
+    cases hl : lookup old d.core.bgs with
+    | none =>
+      have hany : ¬ d.core.bgs.any (fun b => b.1 == old) = true := by
+        intro ha
+        rcases any_eq_true.1 ha with ⟨b, hb, hbe⟩
+        simp only [beq_iff_eq] at hbe
+        exact lookup_eq_none_iff.1 hl (hbe ▸ mem_map.2 ⟨b, hb, rfl⟩)
+      simp only []
+      unfold replaceState
+      simp only [if_neg hany]
+      exact ⟨hi.bgKeys, Perm.refl _⟩
+    | some bOld =>
+      have hmem := mem_of_lookup_eq_some hl
+      have hany : d.core.bgs.any (fun b => b.1 == old) = true :=
+        any_eq_true.2 ⟨_, hmem, by simp⟩
+      have hbm : bOld ∈ d.bgData.map (·.1) := by
+        rw [hi.bgKeys]; exact mem_map.2 ⟨_, hmem, rfl⟩
+      obtain ⟨tb, htb⟩ := lookup_of_key_mem hbm
+      have hfresh : d.core.nextBg ≠ bOld := by
+        have := hi.core.bgFresh _ hmem
+        simp only [] at this
+        omega
+      simp only []
+      unfold replaceState
+      simp only [if_pos hany]
+      refine ⟨?_, moveKey_snd_perm hbgn htb hfresh⟩
+      rw [moveKey_fst htb hfresh, hi.bgKeys]
+      have : ((d.core.bgs ++ [(new, d.core.nextBg)]).filter (fun b => b.1 != old)).map (·.2)
+          = ((d.core.bgs ++ [(new, d.core.nextBg)]).map (·.2)).filter (· != bOld) := by
+        rw [filter_map]
+        congr 1
+        apply filter_congr
+        intro e he
+        simp only [Function.comp, mem_append, mem_singleton] at he ⊢
+        rcases he with he | rfl
+        · by_cases h1 : e.1 = old
+          · have : e = (old, bOld) := by
+              have h2 := lookup_eq_some_of_mem hkn (show (e.1, e.2) ∈ d.core.bgs from he)
+              rw [h1, hl] at h2
+              cases h2
+              exact Prod.ext h1 rfl
+            simp [this]
+          · have h2 : e.2 ≠ bOld := by
+              intro h2
+              apply h1
+              -- two entries with the same boundary-grid id are the same entry
+              exact congrArg Prod.fst (eq_of_nodup_map hi.core.bgNodup he hmem h2)
+            have e1 : (e.1 != old) = true := by simpa using h1
+            have e2 : (e.2 != bOld) = true := by simpa using h2
+            rw [e1, e2]
+        · have e1 : (new != old) = true := by simpa using hne
+          have e2 : (d.core.nextBg != bOld) = true := by simpa using hfresh
+          rw [e1, e2]
+      rw [this, map_append]
+      rfl
+  refine ⟨hs' ▸ hcore, ?_, ?_, hbgpart.1, ?_, ?_⟩
+  · rw [hsd, moveKey_fst ht hne, hi.sdKeys, hs', replaceState_sds]
+    simp [hn, filter_append]
+  · rw [hif, hi.ifKeys, hs', replaceState_intfs]
+  · have hperm : allToks d' ~ allToks d := by
+      simp only [allToks, hif]
+      exact ((hsd ▸ moveKey_snd_perm hsdn ht hne).append_right _).append hbgpart.2
+    exact (hperm.nodup_iff).2 hi.tokNodup
+  · have hperm : allToks d' ~ allToks d := by
+      simp only [allToks, hif]
+      exact ((hsd ▸ moveKey_snd_perm hsdn ht hne).append_right _).append hbgpart.2
+    intro x hx
+    rw [htk]
+    exact hi.tokFresh x (hperm.mem_iff.1 hx)
+
+
+/-! #### the data layer refines the graph layer -/
+
+theorem dReplaceMany_core (U : Universe) (sm : List (Nat × Nat)) (d : DState) :
+    (dReplaceMany U d sm).1.core = (replaceMany U d.core sm).1 ∧
+    (dReplaceMany U d sm).2 = (replaceMany U d.core sm).2 := by
+  induction sm generalizing d with
+  | nil => exact ⟨rfl, rfl⟩
+  | cons p sm ih =>
+    obtain ⟨old, new⟩ := p
+    simp only [dReplaceMany, replaceMany]
+    cases hr : replace1 U d.core old new with
+    | error e =>
+      obtain ⟨e, c⟩ := e
+      have : dReplace1 U d old new = .error (e, c) := by unfold dReplace1; rw [hr]
+      rw [this]
+      exact ⟨rfl, rfl⟩
+    | ok r =>
+      obtain ⟨s', c⟩ := r
+      cases hd : dReplace1 U d old new with
+      | error e =>
+        unfold dReplace1 at hd; rw [hr] at hd; cases hd
+      | ok r' =>
+        obtain ⟨d', c'⟩ := r'
+        have h1 := (dReplace1_ok hd).1
+        rw [hr] at h1
+        cases h1
+        simp only []
+        obtain ⟨i1, i2⟩ := ih d'
+        refine ⟨i1, ?_⟩
+        rw [i2]
+
+theorem dstep_core (U : Universe) (d : DState) (op : Op) :
+    (dstep U d op).state.core = (step U d.core op).state ∧
+    (dstep U d op).err = (step U d.core op).err ∧ (dstep U d op).calls = (step U d.core op).calls := by
+  cases op with
+  | addSubdomains gs =>
+    simp only [dstep, step, dAddSubdomains]
+    cases addSubdomains U d.core gs <;> exact ⟨rfl, rfl, rfl⟩
+  | addInterface i pair =>
+    simp only [dstep, step, dAddInterface]
+    cases addInterface U d.core i pair <;> exact ⟨rfl, rfl, rfl⟩
+  | removeSubdomain g =>
+    simp only [dstep, step, dRemoveSubdomain]
+    cases removeSubdomain d.core g <;> exact ⟨rfl, rfl, rfl⟩
+  | replace im sm =>
+    simp only [dstep, step]
+    obtain ⟨h1, h2⟩ := dReplaceMany_core U sm d
+    refine ⟨h1, ?_, ?_⟩
+    · rw [h2]
+    · rw [h2]
+
+theorem dinv_replaceMany {U : Universe} (sm : List (Nat × Nat)) {d : DState} (hi : DInv U d)
+    (hw : wfReplace U d.core sm = true) : DInv U (dReplaceMany U d sm).1 := by
+  induction sm generalizing d with
+  | nil => exact hi
+  | cons p sm ih =>
+    obtain ⟨old, new⟩ := p
+    simp only [dReplaceMany]
+    cases hd : dReplace1 U d old new with
+    | error e => exact hi
+    | ok r =>
+      obtain ⟨d', c⟩ := r
+      have h1 := (dReplace1_ok hd).1
+      simp only [wfReplace, h1, Bool.and_eq_true, Bool.not_eq_true', beq_iff_eq] at hw
+      simp only []
+      exact ih (dinv_replace1 hi (by simpa using hw.1.1) hw.1.2 hd) hw.2
+
+theorem dinv_step {U : Universe} {d : DState} (op : Op) (hi : DInv U d)
+    (hw : wfOp U d.core op = true) : DInv U (dstep U d op).state := by
+  cases op with
+  | addSubdomains gs =>
+    simp only [dstep]
+    cases h : dAddSubdomains U d gs with
+    | error e => exact hi
+    | ok d' => exact dinv_addSubdomains hi h
+  | addInterface i pair =>
+    simp only [dstep]
+    cases h : dAddInterface U d i pair with
+    | error e => exact hi
+    | ok d' =>
+      have hc : addInterface U d.core i pair = .ok d'.core := by
+        unfold dAddInterface at h
+        cases ha : addInterface U d.core i pair with
+        | error e => rw [ha] at h; cases h
+        | ok s' => rw [ha] at h; cases h; rfl
+      obtain ⟨a, b, x, y, rfl, _, _, _⟩ := addInterface_ok hc
+      simp only [wfOp, hc, Bool.and_eq_true, decide_eq_true_eq] at hw
+      exact dinv_addInterface hi (by simpa using hw.1.1.1) (by simpa using hw.1.1.2) hw.1.2 hw.2 h
+  | removeSubdomain g =>
+    simp only [dstep]
+    cases h : dRemoveSubdomain d g with
+    | error e => exact hi
+    | ok d' => exact dinv_removeSubdomain hi h
+  | replace im sm =>
+    simp only [dstep]
+    exact dinv_replaceMany sm hi hw
+
+/-! #### counters only grow; raising them keeps the invariant -/
+
+theorem foldl_addOne_nextBg (U : Universe) (gs : List Nat) (s : State) :
+    s.nextBg ≤ (gs.foldl (addOne U) s).nextBg := by
+  induction gs generalizing s with
+  | nil => exact Nat.le_refl _
+  | cons g gs ih =>
+    simp only [foldl_cons]
+    refine Nat.le_trans ?_ (ih _)
+    unfold addOne; split
+    · exact Nat.le_succ _
+    · exact Nat.le_refl _
+
+theorem replaceMany_nextBg (U : Universe) (sm : List (Nat × Nat)) (s : State) :
+    s.nextBg ≤ (replaceMany U s sm).1.nextBg := by
+  induction sm generalizing s with
+  | nil => exact Nat.le_refl _
+  | cons p sm ih =>
+    obtain ⟨old, new⟩ := p
+    simp only [replaceMany]
+    cases hr : replace1 U s old new with
+    | error e => exact Nat.le_refl _
+    | ok r =>
+      obtain ⟨s', c⟩ := r
+      simp only []
+      refine Nat.le_trans ?_ (ih s')
+      rw [(replace1_ok hr).2.1]
+      unfold replaceState
+      simp only []
+      split
+      · exact Nat.le_succ _
+      · exact Nat.le_refl _
+
+theorem step_nextBg_le (U : Universe) (s : State) (op : Op) :
+    s.nextBg ≤ (step U s op).state.nextBg := by
+  cases op with
+  | addSubdomains gs =>
+    simp only [step]
+    cases h : addSubdomains U s gs with
+    | error e => exact Nat.le_refl _
+    | ok s' => rw [(addSubdomains_ok h).2.2]; exact foldl_addOne_nextBg U gs s
+  | addInterface i pair =>
+    simp only [step]
+    cases h : addInterface U s i pair with
+    | error e => exact Nat.le_refl _
+    | ok s' =>
+      obtain ⟨_, _, _, _, _, _, _, rfl⟩ := addInterface_ok h
+      exact Nat.le_refl _
+  | removeSubdomain g =>
+    simp only [step]
+    cases h : removeSubdomain s g with
+    | error e => exact Nat.le_refl _
+    | ok s' => rw [(removeSubdomain_ok h).2]; exact Nat.le_refl _
+  | replace im sm => exact replaceMany_nextBg U sm s
+
+theorem dReplaceMany_nextTok (U : Universe) (sm : List (Nat × Nat)) (d : DState) :
+    (dReplaceMany U d sm).1.nextTok = d.nextTok := by
+  induction sm generalizing d with
+  | nil => rfl
+  | cons p sm ih =>
+    obtain ⟨old, new⟩ := p
+    simp only [dReplaceMany]
+    cases hd : dReplace1 U d old new with
+    | error e => rfl
+    | ok r =>
+      obtain ⟨d', c⟩ := r
+      simp only []
+      rw [ih d', (dReplace1_ok hd).2.2.2.2]
+
+theorem dstep_nextTok_le (U : Universe) (d : DState) (op : Op) :
+    d.nextTok ≤ (dstep U d op).state.nextTok := by
+  cases op with
+  | addSubdomains gs =>
+    simp only [dstep, dAddSubdomains]
+    cases addSubdomains U d.core gs with
+    | error e => exact Nat.le_refl _
+    | ok s' => simp only []; omega
+  | addInterface i pair =>
+    simp only [dstep, dAddInterface]
+    cases addInterface U d.core i pair with
+    | error e => exact Nat.le_refl _
+    | ok s' => simp only []; omega
+  | removeSubdomain g =>
+    simp only [dstep, dRemoveSubdomain]
+    cases removeSubdomain d.core g with
+    | error e => exact Nat.le_refl _
+    | ok s' => exact Nat.le_refl _
+  | replace im sm =>
+    simp only [dstep]
+    rw [dReplaceMany_nextTok]
+    exact Nat.le_refl _
+
+theorem dinv_withCounters {U : Universe} {d : DState} (hi : DInv U d) {nb nt : Nat}
+    (hb : d.core.nextBg ≤ nb) (ht : d.nextTok ≤ nt) : DInv U (d.withCounters nb nt) := by
+  refine ⟨⟨hi.core.sdsNodup, hi.core.intfNodup, hi.core.pairMem, hi.core.pairDim, hi.core.bgKeys,
+    ?_, hi.core.bgNodup⟩, hi.sdKeys, hi.ifKeys, hi.bgKeys, hi.tokNodup, ?_⟩
+  · intro b hb'
+    exact Nat.lt_of_lt_of_le (hi.core.bgFresh b hb') hb
+  · intro t ht'
+    exact Nat.lt_of_lt_of_le (hi.tokFresh t ht') ht
+
+/-- invariant of a family of containers produced by `copy()` -/
+def WInv (U : Universe) (w : World) : Prop :=
+  ∀ d ∈ w.conts, DInv U d ∧ d.core.nextBg ≤ w.nextBg ∧ d.nextTok ≤ w.nextTok
+
+theorem winv_init (U : Universe) : WInv U World.init := by
+  intro d hd
+  simp only [World.init, mem_singleton] at hd
+  subst hd
+  exact ⟨dinv_empty U, Nat.le_refl _, Nat.le_refl _⟩
+
+theorem winv_step {U : Universe} {w : World} (o : WOp) (hi : WInv U w)
+    (hw : wfWorld U w [o] = true) : WInv U (wstep U w o) := by
+  cases o with
+  | copy k =>
+    simp only [wstep]
+    cases hk : w.conts[k]? with
+    | none => exact hi
+    | some d =>
+      intro d' hd'
+      simp only [mem_append, mem_singleton] at hd'
+      rcases hd' with hd' | rfl
+      · exact hi d' hd'
+      · exact hi _ (mem_of_getElem? hk)
+  | on k op =>
+    simp only [wstep]
+    cases hk : w.conts[k]? with
+    | none => exact hi
+    | some d =>
+      simp only [wfWorld, hk, Bool.and_true] at hw
+      have hd := hi d (mem_of_getElem? hk)
+      have hbump := dinv_withCounters hd.1 hd.2.1 hd.2.2
+      have hnew := dinv_step op hbump hw
+      have hbg : w.nextBg ≤ (dstep U (d.withCounters w.nextBg w.nextTok) op).state.core.nextBg := by
+        rw [(dstep_core U _ op).1]
+        exact step_nextBg_le U (d.withCounters w.nextBg w.nextTok).core op
+      have htk : w.nextTok ≤ (dstep U (d.withCounters w.nextBg w.nextTok) op).state.nextTok :=
+        dstep_nextTok_le U (d.withCounters w.nextBg w.nextTok) op
+      intro d' hd'
+      simp only [] at hd' ⊢
+      rcases mem_or_eq_of_mem_set hd' with hd' | rfl
+      · have := hi d' hd'
+        exact ⟨this.1, Nat.le_trans this.2.1 hbg, Nat.le_trans this.2.2 htk⟩
+      · exact ⟨hnew, Nat.le_refl _, Nat.le_refl _⟩
+
+theorem winv_run {U : Universe} (os : List WOp) {w : World} (hi : WInv U w)
+    (hw : wfWorld U w os = true) : WInv U (wrun U w os) := by
+  induction os generalizing w with
+  | nil => exact hi
+  | cons o os ih =>
+    simp only [wrun]
+    have h1 : wfWorld U w [o] = true ∧ wfWorld U (wstep U w o) os = true := by
+      cases o with
+      | copy k => simpa [wfWorld] using hw
+      | on k op =>
+        simp only [wfWorld, Bool.and_eq_true] at hw ⊢
+        exact ⟨⟨hw.1, trivial⟩, hw.2⟩
+    exact ih (winv_step o hi h1.1) h1.2
+
+
+theorem lookup_filter_key {β : Type} {k : Nat} (p : Nat → Bool) (l : List (Nat × β)) (h : p k = true) :
+    lookup k (l.filter (fun e => p e.1)) = lookup k l := by
+  induction l with
+  | nil => rfl
+  | cons q l ih =>
+    rw [filter_cons]
+    by_cases hp : p q.1 = true
+    · rw [if_pos hp]
+      simp only [lookup]
+      split
+      · rfl
+      · exact ih
+    · rw [if_neg hp]
+      have hq : (q.1 == k) = false := by
+        simp only [beq_eq_false_iff_ne]; intro e; exact hp (e ▸ h)
+      simp only [lookup, hq, Bool.false_eq_true, if_false]
+      exact ih
+
+theorem lookup_append_of_some {β : Type} {k : Nat} {v : β} {l l' : List (Nat × β)}
+    (h : lookup k l = some v) : lookup k (l ++ l') = some v := by
+  rw [lookup_append, h]; rfl
+
+theorem eq_of_lookup_eq_some {l : List (Nat × Nat)} (hn : (l.map (·.2)).Nodup) {k k' t : Nat}
+    (h : lookup k l = some t) (h' : lookup k' l = some t) : k = k' := by
+  have := eq_of_nodup_map hn (mem_of_lookup_eq_some h) (mem_of_lookup_eq_some h') rfl
+  exact congrArg Prod.fst this
 
 end PorepyVerif.C24
